@@ -110,8 +110,22 @@ func runC15(c *Check) {
 			}
 		}
 	}
-	equalOperands := func(fn *ssa.Function) map[string]bool {
+	var equalOperands func(fn *ssa.Function) map[string]bool
+	equalDepth := 0
+	equalOperands = func(fn *ssa.Function) map[string]bool {
 		out := map[string]bool{}
+		// predicates of this package that the function calls (a guard moved into a helper)
+		if equalDepth < 2 {
+			equalDepth++
+			for _, cal := range staticCalleesOf(p, fn) {
+				if pk := fnPkg(cal); pk != nil && pk.Pkg.Path() == kvPkg && cal != root && cal.Signature.Results().Len() == 1 && isBoolType(cal.Signature.Results().At(0).Type()) {
+					for k := range equalOperands(cal) {
+						out[k] = true
+					}
+				}
+			}
+			equalDepth--
+		}
 		for _, b := range fn.Blocks {
 			for _, in := range b.Instrs {
 				call, ok := in.(*ssa.Call)
@@ -162,11 +176,25 @@ func runC15(c *Check) {
 				}
 			}
 		}
+		nEq = len(X)
 		if len(apps) == 1 {
-			facts := g.NecessaryEdges(nodeSet(apps))
+			facts := FactSet(g.NecessaryEdges(nodeSet(apps)))
+			// a rejected predicate helper contributes the facts common to all its rejecting alternatives
+			for _, f := range append(FactSet{}, facts...) {
+				if f.Pol || f.Cond.Op != "call" {
+					continue
+				}
+				if cv, ok := f.Cond.V.(*ssa.Call); ok && cv.Common().StaticCallee() != nil && p.InRepo(cv.Common().StaticCallee()) {
+					callee := cv.Common().StaticCallee()
+					alts := p.RejectDNF(callee, &Ctx{Parent: f.Cond.Ctx, Site: cv, Fn: callee}, 0, 1)
+					facts = append(facts, intersectFacts(alts)...)
+				}
+			}
 			got := 0
+			seenEq := map[string]bool{}
 			for _, f := range facts {
-				if !f.Pol && f.Cond.IsCall("go-datastore.Key).Equal") {
+				if !f.Pol && f.Cond.IsCall("go-datastore.Key).Equal") && !seenEq[f.Cond.String()] {
+					seenEq[f.Cond.String()] = true
 					got++
 				}
 			}
